@@ -45,6 +45,27 @@ def model_inputs(E, model):
     return out
 
 
+def eval_value(model, v):
+    """a recorded observation (symbolic value) under a model -> the plain form native_rt.plain() produces"""
+    if isinstance(v, bool) or v is None or isinstance(v, (int, str)):
+        return v
+    if isinstance(v, SymBool):
+        return bool(z3.is_true(model.eval(v.e, model_completion=True)))
+    if isinstance(v, SymInt):
+        return model.eval(v.e, model_completion=True).as_long()
+    if isinstance(v, EnumVal):
+        return eval_value(model, v.v)
+    if isinstance(v, Bytes):
+        return ["bytes", [eval_value(model, x) for x in v.items]]
+    if isinstance(v, Str):
+        return "".join(chr(eval_value(model, c)) for c in v.cps)
+    if isinstance(v, (PList, tuple)):
+        return [eval_value(model, x) for x in (v.items if isinstance(v, PList) else v)]
+    if isinstance(v, OpaqueStr):
+        return "<opaque>"
+    return f"<{type(v).__name__}>"
+
+
 def install_check(E, max_violations):
     def do_check(c, label):
         E.stats.obligations += 1
@@ -149,6 +170,7 @@ def explore(E, fn, args, *, initial_work=None, max_paths=None, deadline=None, co
     stats0 = E.stats
     E.stats = Stats()
     models = []
+    sym_obs = []
     completed = 0
     status = "done"
     note = ""
@@ -189,7 +211,12 @@ def explore(E, fn, args, *, initial_work=None, max_paths=None, deadline=None, co
                                 if t is not None:
                                     extra.append(z3.Not(t))
                     if E._check(*extra, need_model=True):
-                        models.append(model_inputs(E, E.solver.model()))
+                        mdl = E.solver.model()
+                        models.append(model_inputs(E, mdl))
+                        try:
+                            sym_obs.append([[lab, eval_value(mdl, val)] for lab, val in E.observations])
+                        except Exception:      # noqa: BLE001 - an observation we cannot evaluate is simply not compared
+                            sym_obs.append(None)
             except PathAbort:
                 E.stats.aborted += 1
             except DeadBranch:
@@ -218,7 +245,7 @@ def explore(E, fn, args, *, initial_work=None, max_paths=None, deadline=None, co
         note = "host recursion limit"
     res = {
         "status": status, "note": note, "stats": E.stats.as_dict(), "violations": E.violations,
-        "reached": dict(E.reached), "models": models, "completed": completed,
+        "reached": dict(E.reached), "models": models, "sym_obs": sym_obs, "completed": completed,
         "pending": [list(t) for t in E.work] if status == "split" else [],
         "wall_s": round(time.time() - t0, 3), "fp_uses": sorted(set(E.fp_uses)),
         "assumptions": sorted(E.assumptions_used), "second": dict(E.second), "known_hits": list(E.known_hits),
